@@ -61,23 +61,23 @@ theorem trace_roundtrip (env : Env) (nm : Names) (tr : Trace)
 
 /-! the function kinds of the quantifier: what `get_func_in_module` finds again -/
 
-theorem finds_plain_function (env : Env) (m q : String) (f : FuncId) (h : env.lookup m q = some (.func f)) :
-    funcOf env m q = .ok f := by simp [funcOf, h, unwrapObj]
+theorem finds_plain_function (env : Env) (m q : String) (f : FuncId) (h : env.lookup m q = some (.func f))
+    (hq : env.funcQual f = q) : funcOf env m q = .ok f := by simp [funcOf, h, unwrapObj, hq]
 
-theorem finds_classmethod (env : Env) (m q : String) (f : FuncId) (h : env.lookup m q = some (.boundMethod f)) :
-    funcOf env m q = .ok f := by simp [funcOf, h, unwrapObj]
+theorem finds_classmethod (env : Env) (m q : String) (f : FuncId) (h : env.lookup m q = some (.boundMethod f))
+    (hq : env.funcQual f = q) : funcOf env m q = .ok f := by simp [funcOf, h, unwrapObj, hq]
 
 theorem finds_readonly_property (env : Env) (m q : String) (f : FuncId)
-    (h : env.lookup m q = some (.prop (some f) false false)) : funcOf env m q = .ok f := by
-  simp [funcOf, h, unwrapObj]
+    (h : env.lookup m q = some (.prop (some f) false false)) (hq : env.funcQual f = q) : funcOf env m q = .ok f := by
+  simp [funcOf, h, unwrapObj, hq]
 
 theorem finds_wrapped (env : Env) (m q : String) (g g' f : FuncId)
-    (h : env.lookup m q = some (.wrapped g (.wrapped g' (.func f)))) : funcOf env m q = .ok f := by
-  simp [funcOf, h, unwrapObj]
+    (h : env.lookup m q = some (.wrapped g (.wrapped g' (.func f)))) (hq : env.funcQual f = q) : funcOf env m q = .ok f := by
+  simp [funcOf, h, unwrapObj, hq]
 
 theorem finds_wrapped_once (env : Env) (m q : String) (g f : FuncId)
-    (h : env.lookup m q = some (.wrapped g (.func f))) : funcOf env m q = .ok f := by
-  simp [funcOf, h, unwrapObj]
+    (h : env.lookup m q = some (.wrapped g (.func f))) (hq : env.funcQual f = q) : funcOf env m q = .ok f := by
+  simp [funcOf, h, unwrapObj, hq]
 
 theorem settable_property_is_rejected (env : Env) (m q : String) (g : Option FuncId) (d : Bool)
     (h : env.lookup m q = some (.prop g true d)) : funcOf env m q = .error .invalidType := by
@@ -91,9 +91,10 @@ def demoEnv : Env where
   lookup m q := if m == "builtins" && q == "NoneType" then some (.cls noneC)
                 else if m == "builtins" && q == "int" then some (.cls intC)
                 else if m == "m" && q == "f1" then some (.wrapped 9 (.func 1)) else none
+  funcQual f := s!"f{f}"
 example : (Ty.td [("a", .tuple [])] [("b", .tupleOf (.union [.cls intC, .cls noneC]))]).storable demoEnv demoNames = true := by
   decide +kernel
 example : (Ty.td [("a", .tuple [])] [("b", .tupleOf (.union [.cls intC, .cls noneC]))]).normal = true := by decide +kernel
-example : funcOf demoEnv "m" "f1" = .ok 1 := finds_wrapped_once demoEnv "m" "f1" 9 1 (by simp [demoEnv])
+example : funcOf demoEnv "m" "f1" = .ok 1 := finds_wrapped_once demoEnv "m" "f1" 9 1 (by simp [demoEnv]) (by decide +kernel)
 
 end MT.C08
